@@ -46,7 +46,7 @@ def main():
             print("cannot revert", subj, p.stderr[:300]); results.append((subj, prop, "CANNOT-REVERT")); sh("git -C /repo checkout -- ."); continue
         t0 = time.time()
         try:
-            r = sh(f"cd {ROOT} && VERIF_SEED=7 ./check {prop} quick", timeout=1800)
+            r = sh(f"cd {ROOT} && VERIF_EVIDENCE_DIR=/verif/target/scratch-evidence VERIF_SEED=7 ./check {prop} quick", timeout=1800)
             out = r.stdout
             m = re.search(r"VIOLATION property=(\S+) replay=(\S+)", out)
             if m:
